@@ -423,6 +423,23 @@ def run_reject(c):
         return {"raised": True, "message": "%s: %s" % (type(e).__name__, str(e)[:150]), "solvers_created": len(calls)}
 
 
+def reject_as_vcase(c):
+    """the goal list of run_reject() as a `validate` case of part A (scalar defects only)"""
+    d = c["defect"]
+
+    def g(prio=1, fk=1, lo=-12.0, hi=12.0, tmin=None, tmax=None, nominal=1, weight=1, critical=False):
+        return {"fk": fk, "prio": prio, "lo": lo, "hi": hi, "nominal": nominal, "weight": weight, "critical": critical, "relax": 0,
+                "tmin": None if tmin is None else str(Fraction(tmin)), "tmax": None if tmax is None else str(Fraction(tmax)),
+                "smin": False, "smax": False}
+    nr = {"lo": "nan", "hi": "nan"}
+    goals = {"target_above_range": [g(tmax=13)], "target_below_range": [g(tmin=-13)], "nominal_zero": [g(tmax=5, nominal=0)],
+             "nominal_negative": [dict(g(nominal=-2), **nr)], "weight_zero": [g(tmax=5, weight=0)], "weight_negative": [g(tmin=-5, weight=-1)],
+             "critical_minimisation": [dict(g(critical=True), **nr)],
+             "non_monotone_min": [g(1, 7, tmin=-2), g(2, 7, tmin=-4)], "non_monotone_max": [g(1, 7, tmax=3), g(2, 7, tmax=5)],
+             "ok_scalar": [g(1, 1, tmax=5), g(2, 2, tmin=-5)]}[d]
+    return {"k": "validate", "n": 3, "is_path": c["path"], "keep_soft": c["variant"] != "multi", "monotone": True, "defect": d, "goals": goals}
+
+
 def check_reject(ctx, c):
     r = run_reject(c)
     ill = c["defect"] in REJECT_DEFECTS
@@ -493,5 +510,16 @@ def run(ctx):
     rj = [c for c in cases if c.get("k") == "reject"] if replay else reject_cases()
     for c in rj:
         check_reject(ctx, c)
+    # what the Gallina specification (GoalValidate.validate, C04_validate_iff_wellformed / C04_rejections) says
+    # about the scalar ones of these goal lists
+    sc = [c for c in rj if "vector" not in c["defect"]]
+    if sc:
+        mv = core.eval_terms(ID + "r", ["Xq", "GoalValidate"], [vterm(reject_as_vcase(c)) for c in sc])
+        for c, v in zip(sc, mv):
+            ill = c["defect"] in REJECT_DEFECTS
+            if v[0] != (0 if ill else 1):
+                ctx.violation("validate/specification-disagrees", {"case": c, "model_accepts": v[0],
+                                                                   "broken_correspondence": "GoalValidate.validate vs the ill-formed goals of the end-to-end pass"},
+                              no_input=True, what="the specification %s the %s goal list" % ("accepts" if v[0] else "rejects", c["defect"]))
     if not replay:
         conflict_probe(ctx)
